@@ -91,12 +91,23 @@ META.update({
         note="Shapes: rows 0..4, cols 0..3, weights length 0..4, model output length 0,1,3; L = 3 quick / 4 thorough.", ref="DESIGN.md §5 C18"),
 })
 
+META.update({
+    "C04": dict(technique="deviation-bounded exhaustive exploration of the optimizer's decision space by owning the model's answers (scripted model under the real LevMarProblem + levenberg-marquardt), plus an exhaustive grid of real fits incl. far starts and all solver configurations",
+        text="Every script of model answers up to the depth/deviation bound yields one complete real fit; on each the oracle checks Ok <=> successful termination, the evaluation budget of the solver the caller supplied, and for successful fits the coherence of parameters, coefficients, residuals and objective, monotonicity w.r.t. the initial guess and equality with a fresh problem at the returned parameters (the 'reset after a rejected last step' path is counted). The grid part repeats this on real models with the C01/C02 certificates.",
+        note="Bounds: script depth 4/6, deviations 2/3, 31 answers; 7 starts x 24 configurations on 4 real families.", ref="DESIGN.md §5 C04"),
+    "C05": dict(technique="exhaustive product grid of real fits over the certified model families (no sampling), judged against reference computations",
+        text="Every grid instance must fit successfully, reproduce noiseless data, not exceed the weighted sum of squares of the generating parameters, and be stationary w.r.t. the reference Kaufman Jacobian.",
+        note="A grid, not a proof: the claim is 'every grid instance converges'. The certified region was delimited by measurement over noise seeds (DESIGN.md).", ref="DESIGN.md §5 C05"),
+})
+
 NOT_YET = "check not yet registered in this revision (engine under construction, see DESIGN.md §10)"
 NA = {
     "C19": "frequency claim over a continuous noise distribution ('up to sampling error'): deciding it needs Monte-Carlo sampling or an analytic proof, neither of which is an exhaustive enumeration of a bounded behaviour space (DESIGN.md §5 C19); its deterministic ingredients are decided under C12-C14",
 }
 
 ENGINES = [
+    dict(name="fitenv", path="harness/src/bin/fitenv.rs", serves_properties=["C04"], kind_free_text="deviation-bounded DFS over scripted model answers; every leaf a real fit"),
+    dict(name="fitgrid", path="harness/src/bin/fitgrid.rs", serves_properties=["C02", "C04", "C05"], kind_free_text="exhaustive product grids of real fits vs reference computations"),
     dict(name="pbuilder", path="harness/src/bin/pbuilder.rs", serves_properties=["C18"], kind_free_text="exhaustive enumeration of LevMarProblemBuilder call sequences vs reference validation"),
     dict(name="probstate", path="harness/src/bin/probstate.rs", serves_properties=["C01", "C02", "C03", "C06", "C07", "C10", "C11"], kind_free_text="explicit-state DFS over set_params histories of the real LevMarProblem with per-state invariants and lock-step twins"),
     dict(name="stats", path="harness/src/bin/stats.rs", serves_properties=["C12", "C13", "C14"], kind_free_text="product-grid exploration of real fit_with_statistics runs vs reference linear algebra and scipy t-table"),
